@@ -264,11 +264,18 @@ func c27(repo string, out *fg.Out) error {
 		}
 		return true
 	})
+	// The ORDER is a generated fact (theorems C27_receive_order / C27_receipt_before_exists name a
+	// reordering); only a missing or duplicated step is a shape error.
 	want := []string{"index.Lookup", "backend.Exists", "resolveExisting", "stage", "hash-check", "promote", "register", "recordReceived"}
-	if strings.Join(skeleton, ",") != strings.Join(want, ",") {
-		return fmt.Errorf("Receiver.Receive skeleton changed: got %v want %v", skeleton, want)
+	{
+		a := append([]string(nil), skeleton...)
+		b := append([]string(nil), want...)
+		sort.Strings(a)
+		sort.Strings(b)
+		if strings.Join(a, ",") != strings.Join(b, ",") {
+			return fmt.Errorf("Receiver.Receive steps changed: got %v want (any order) %v", skeleton, want)
+		}
 	}
-
 
 	// ---- Agent.Run: which Ledger methods Run calls directly on a.ledger, as top-level statements of
 	// its body, unconditionally, and at which statement index. The exactly-once/termination argument
